@@ -18,7 +18,7 @@ META = {
         'exhaustively over the ordering classes {<,=,>} x {None,a,b}^2 and compared with the documented '
         'order (antisymmetric, None-suffix first, zero-padded, ints); (D3) __hash__ is computed from a '
         'padding-insensitive form; (D4) nearest() returns only members of OFFICIAL_VERSIONS, equal first, '
-        'scanning in descending order.  Not decided: transitivity/monotonicity as quantified statements '
+        'scanning in descending order.  Also (D2): identity tests (`is`) between non-singleton inputs are refused by the decision table (the outcome depends on interning); the skeleton may bind locals to case/strip transforms and the suffix representatives include mixed case; (D3) an unrecognised __hash__ body is evaluated by a small interpreter on representatives of the zero-padding classes.  Not decided: transitivity/monotonicity as quantified statements '
         'over triples (they follow from D1+D2 for a lexicographic comparison; that step is not mechanised).'),
     'rule_text': 'obligations = operator thresholds (6), _cmp decision-table cells (3 numeric orderings x 9 suffix '
                  'pairs), padding/int/coercion facts, hash form, nearest() returns and scan order',
